@@ -18,8 +18,8 @@ are skipped unless both sides have the key) -- stated, not hidden.
 
 Rules R49: the `.get_sub_element(..).and_then(..).and_then(..)` / `.attribute_value(..).and_then(..)` chains (closures) -> leaves
 vx_index / vx_definition / vx_dest returning the uninterpreted keys; `X.to_str().cmp(Y.to_str())` -> vx_cmp_str; `idx1.cmp(&idx2)` ->
-vx_cmp_u64; `def1.cmp(&def2)` -> vx_cmp_string; the final `locked_self.content.cmp(..).then(..attributes.cmp(..))` with the two read
-guards -> vx_rest_cmp; `other => return other` arm kept.
+vx_cmp_u64; `def1.cmp(&def2)` -> vx_cmp_string; `X.0.read()` -> X.vx_read(): a guard whose `content` / `attributes` are opaque vectors
+of that element with leaf `cmp` methods (content_ord / attr_ord uninterpreted; `.then` is Ordering::then, verified); `other => return other` arm kept.
 """
 import re
 
@@ -53,7 +53,9 @@ pub uninterp spec fn eindex(e: Element) -> Option<u64>;
 pub uninterp spec fn iname(e: Element) -> Option<Seq<char>>;
 pub uninterp spec fn edef(e: Element) -> Option<Seq<char>>;
 pub uninterp spec fn edest(e: Element) -> Option<EnumItem>;
-pub uninterp spec fn rest_ord(a: Element, b: Element) -> Ordering;
+pub uninterp spec fn content_ord(a: Element, b: Element) -> Ordering;     // std Ord of the two content vectors (recursive: Element::cmp, CharacterData::cmp)
+pub uninterp spec fn attr_ord(a: Element, b: Element) -> Ordering;        // std Ord of the two attribute vectors
+pub open spec fn rest_ord(a: Element, b: Element) -> Ordering { if content_ord(a, b) == Ordering::Equal { attr_ord(a, b) } else { content_ord(a, b) } }
 // ---- leaf orders
 pub uninterp spec fn str_ord(a: Seq<char>, b: Seq<char>) -> Ordering;        // std str / String cmp
 pub uninterp spec fn name_ord(a: Seq<char>, b: Seq<char>) -> Ordering;       // compare_item_names (laws proved in unit cmp)
@@ -139,8 +141,27 @@ impl Element {
     pub fn vx_definition(&self) -> (r: Option<String>) ensures (r is Some) == (edef(*self) is Some), r matches Some(s) ==> s@ == edef(*self).unwrap() { unimplemented!() }
     #[verifier::external_body]
     pub fn vx_dest(&self) -> (r: Option<EnumItem>) ensures r == edest(*self) { unimplemented!() }
+    // `self.0.read()`: the read guard, through which the content and attribute vectors of this element are reached
     #[verifier::external_body]
-    pub fn vx_rest_cmp(&self, other: &Element) -> (r: Ordering) ensures r == rest_ord(*self, *other) { unimplemented!() }
+    pub fn vx_read(&self) -> (r: VxGuard) ensures r.content.of == *self, r.attributes.of == *self { unimplemented!() }
+}
+pub struct VxContent { pub of: Element }
+pub struct VxAttrs { pub of: Element }
+pub struct VxGuard { pub content: VxContent, pub attributes: VxAttrs }
+pub struct VxOrd { pub o: Ordering }
+impl VxContent {
+    #[verifier::external_body]
+    pub fn cmp(&self, other: &VxContent) -> (r: VxOrd) ensures r.o == content_ord(self.of, other.of) { unimplemented!() }
+}
+impl VxAttrs {
+    #[verifier::external_body]
+    pub fn cmp(&self, other: &VxAttrs) -> (r: Ordering) ensures r == attr_ord(self.of, other.of) { unimplemented!() }
+}
+impl VxOrd {
+    // Ordering::then
+    pub fn then(self, other: Ordering) -> (r: Ordering) ensures r == (if self.o == Ordering::Equal { other } else { self.o }) {
+        match self.o { Ordering::Equal => other, Ordering::Less => Ordering::Less, Ordering::Greater => Ordering::Greater }
+    }
 }
 #[verifier::external_body]
 pub fn vx_cmp_str(a: &str, b: &str) -> (r: Ordering) ensures r == str_ord(a@, b@) { unimplemented!() }
@@ -167,8 +188,8 @@ R49 = [
     (r'def1\.cmp\(&def2\)', lambda m: 'vx_cmp_string(&def1, &def2)', 'R49'),
     (r'dest1\.to_str\(\)\.cmp\(dest2\.to_str\(\)\)', lambda m: 'vx_cmp_str(dest1.to_str(), dest2.to_str())', 'R49'),
     (r'if result != Ordering::Equal \{', lambda m: 'if vx_ne_equal(result) {', 'R49'),
-    (r'let locked_self = self\.0\.read\(\);\s*let locked_other = other\.0\.read\(\);\s*locked_self\s*\.content\s*\.cmp\(&locked_other\.content\)\s*\.then\(locked_self\.attributes\.cmp\(&locked_other\.attributes\)\)',
-     lambda m: 'self.vx_rest_cmp(other)', 'R49'),
+    (r'let locked_self = self\.0\.read\(\);', lambda m: 'let locked_self = self.vx_read();', 'R49'),
+    (r'let locked_other = other\.0\.read\(\);', lambda m: 'let locked_other = other.vx_read();', 'R49'),
     (r'return std::cmp::Ordering::(Less|Greater)', lambda m: 'return Ordering::%s' % m.group(1), 'R49'),
 ]
 
@@ -177,7 +198,7 @@ def make_unit(repo_dir):
     fn = FnSpec('cmp', F, impl=IMPL_O, ret='r', body_sub=R49, sig_sub=[(r'std::cmp::Ordering', 'Ordering')], label='Element.cmp',
                 ensures=['r == ecmp(*self, *other)'])
     u = Unit(name='elemcmp', prop='C14', spec=SPEC, fns=[fn], wrap={IMPL_O: 'impl Element'},
-             dropped=['`impl Ord for Element { fn cmp }` is emitted as an inherent function; an Element is an opaque handle with uninterpreted keys (element name text, INDEX, item name, definition reference, DEST) -- the real accessors take locks and walk sub-elements; the comparison of content and attributes (std Vec / enum Ord over the element tree) is the leaf rest_ord',
+             dropped=['`impl Ord for Element { fn cmp }` is emitted as an inherent function; an Element is an opaque handle with uninterpreted keys (element name text, INDEX, item name, definition reference, DEST) -- the real accessors take locks and walk sub-elements; the comparisons of the content vectors and of the attribute vectors (std Vec / enum Ord over the element tree) are the leaves content_ord / attr_ord, reached through the two read guards',
                       'ASSUMED: rest_ord is a total preorder (induction hypothesis over the tree); str::cmp is a total order; compare_item_names laws as proved in unit cmp'])
     u.property_lemmas = {'lemma_ecmp_laws': 'Element::cmp (the documented chain) is reflexive, antisymmetric and transitive on elements with the same presence of item name and definition reference'}
     return u
